@@ -114,6 +114,13 @@ func TestC19(t *testing.T) {
 			}
 		})
 	}
+	// byte sequences that are not valid UTF-8, in every kind of context
+	if sh == 0 {
+		for _, src := range invalidSources() {
+			run(t, wproto.Req{Op: "downstream", Src: src, Lo: 0, Hi: 256, Dir: scratch}, true, false)
+		}
+		st.ClassN("invalid_utf8_in_context", int64(len(invalidSources())))
+	}
 	// Option.String on all 2^14 values
 	if sh == 0 {
 		run(t, wproto.Req{Op: "option", Lo: 0, Hi: 1 << 14}, true, false)
@@ -121,7 +128,7 @@ func TestC19(t *testing.T) {
 		st.Sample(map[string]any{"op": "Option.String", "values": "0 .. 16383"})
 	}
 	// short strings over the special characters to Eval, Match, Glob
-	special := []string{"a", "1", "x", " ", "\n", "'", `"`, `\`, "$", "`", "*", "?", "[", "]", "~", "#", "&", ";", "|", "<", ">", "(", ")", "{", "}", "!", "=", "+", "-", "/", ".", ":", "%", "^", "é", "0x", "08"}
+	special := []string{"a", "1", "x", " ", "\n", "'", `"`, `\`, "$", "`", "*", "?", "[", "]", "~", "#", "&", ";", "|", "<", ">", "(", ")", "{", "}", "!", "=", "+", "-", "/", ".", ":", "%", "^", "é", "0x", "08", "\xff", "\xe3\x81"}
 	k := 2
 	if thorough() {
 		k = 3
